@@ -22,6 +22,7 @@ use std::num::NonZeroU64;
 use crate::codec::SketchBytes;
 use crate::codec::SketchSlice;
 use crate::codec::assert::ensure_preamble_longs_in;
+use crate::codec::assert::ensure_remaining;
 use crate::codec::assert::ensure_serial_version_is;
 use crate::codec::assert::insufficient_data;
 use crate::codec::family::Family;
@@ -581,6 +582,10 @@ impl TDigestMut {
         };
         check_non_nan(min, "min")?;
         check_non_nan(max, "max")?;
+        // centroids and buffered values must be present before space is reserved for them
+        let (centroid_size, value_size) = if is_f32 { (8, 4) } else { (16, 8) };
+        ensure_remaining(&cursor, num_centroids, centroid_size, "centroids")?;
+        ensure_remaining(&cursor, num_buffered, value_size, "buffered_values")?;
         let mut centroids = Vec::with_capacity(num_centroids);
         let mut centroids_weight = 0u64;
         for _ in 0..num_centroids {
@@ -598,9 +603,10 @@ impl TDigestMut {
             check_non_nan(mean, "centroid mean")?;
             check_finite(mean, "centroid")?;
             let weight = check_nonzero(weight, "centroid weight")?;
-            centroids_weight += weight.get();
+            centroids_weight = checked_total_weight(centroids_weight, weight.get())?;
             centroids.push(Centroid { mean, weight });
         }
+        checked_total_weight(centroids_weight, num_buffered as u64)?;
         let mut buffer = Vec::with_capacity(num_buffered);
         for _ in 0..num_buffered {
             let value = if is_f32 {
@@ -655,6 +661,7 @@ impl TDigestMut {
                 }
                 let num_centroids =
                     cursor.read_u32_be().map_err(make_error("num_centroids"))? as usize;
+                ensure_remaining(&cursor, num_centroids, 16, "centroids")?;
                 let mut total_weight = 0u64;
                 let mut centroids = Vec::with_capacity(num_centroids);
                 for _ in 0..num_centroids {
@@ -663,7 +670,7 @@ impl TDigestMut {
                     let weight = check_nonzero(weight, "centroid weight in compat double format")?;
                     check_non_nan(mean, "centroid mean in compat double format")?;
                     check_finite(mean, "centroid mean in compat double format")?;
-                    total_weight += weight.get();
+                    total_weight = checked_total_weight(total_weight, weight.get())?;
                     centroids.push(Centroid { mean, weight });
                 }
                 Ok(TDigestMut::make(
@@ -697,6 +704,7 @@ impl TDigestMut {
                 cursor.read_u32_be().map_err(make_error("<unused>"))?;
                 let num_centroids =
                     cursor.read_u16_be().map_err(make_error("num_centroids"))? as usize;
+                ensure_remaining(&cursor, num_centroids, 8, "centroids")?;
                 let mut total_weight = 0u64;
                 let mut centroids = Vec::with_capacity(num_centroids);
                 for _ in 0..num_centroids {
@@ -705,7 +713,7 @@ impl TDigestMut {
                     let weight = check_nonzero(weight, "centroid weight in compat float format")?;
                     check_non_nan(mean, "centroid mean in compat float format")?;
                     check_finite(mean, "centroid mean in compat float format")?;
-                    total_weight += weight.get();
+                    total_weight = checked_total_weight(total_weight, weight.get())?;
                     centroids.push(Centroid { mean, weight });
                 }
                 Ok(TDigestMut::make(
@@ -1325,6 +1333,16 @@ fn check_finite(value: f64, tag: &'static str) -> Result<(), Error> {
     }
 
     Ok(())
+}
+
+/// The total weight of a digest must fit in a u64 (with room for the weights to be merged).
+fn checked_total_weight(total: u64, weight: u64) -> Result<u64, Error> {
+    match total.checked_add(weight) {
+        Some(sum) if sum <= u64::MAX / 2 => Ok(sum),
+        _ => Err(Error::deserial(
+            "malformed data: total weight of the centroids overflows",
+        )),
+    }
 }
 
 fn check_nonzero(value: u64, tag: &'static str) -> Result<NonZeroU64, Error> {
